@@ -16,6 +16,7 @@ import (
 	"strconv"
 	"strings"
 	"sync"
+	"sync/atomic"
 	"time"
 
 	lime "github.com/takenet/lime-go"
@@ -547,6 +548,7 @@ func (s *scriptServer) finishConfig(cfg *lime.ServerConfig, oracle *SOracle) {
 	go func() { s.done <- s.srv.ListenAndServe() }()
 	// let the consumer goroutine reach its select before anything else happens
 	time.Sleep(3 * time.Millisecond)
+	markIdle(1)
 }
 
 func (s *scriptServer) Close() {
@@ -555,20 +557,59 @@ func (s *scriptServer) Close() {
 	case <-s.done:
 	case <-time.After(8 * time.Second):
 	}
+	clearIdle()
 }
 
-// servingGoroutines counts goroutines inside Server.handleChannel or the channel receiver.
+// servingGoroutines counts the library's goroutines beyond those a Server has when it is idle (its acceptors and
+// its consumer): the goroutines serving a connection and the receivers of channels.  It does not go by function
+// names (a refactoring may rename them): a goroutine counts when its stack has a frame of the library and none of
+// the harness, and the idle level is measured (markIdle) after the Server was started and before anything connects.
 func servingGoroutines() int {
-	buf := make([]byte, 1<<20)
+	n := libraryGoroutines() - int(atomic.LoadInt32(&servingBase))
+	if n < 0 {
+		return 0
+	}
+	return n
+}
+
+var servingBase int32
+
+func libraryGoroutines() int {
+	buf := make([]byte, 2<<20)
 	n := runtime.Stack(buf, true)
 	cnt := 0
 	for _, g := range strings.Split(string(buf[:n]), "\n\n") {
-		if strings.Contains(g, "lime-go.(*Server).handleChannel") || strings.Contains(g, "lime-go.receiveFromTransport") {
+		// (frames of the harness's in-memory connection are fine: the library's goroutines block in it)
+		if strings.Contains(g, "takenet/lime-go.") && !strings.Contains(g, "\nmain.") && !strings.HasPrefix(g, "main.") {
 			cnt++
 		}
 	}
 	return cnt
 }
+
+// markIdle measures the idle level: the count has to be at least min and to stay the same for a few milliseconds.
+func markIdle(min int) {
+	last, same := -1, 0
+	deadline := time.Now().Add(500 * time.Millisecond * slack)
+	for time.Now().Before(deadline) {
+		c := libraryGoroutines()
+		if c == last && c >= min {
+			same++
+			if same >= 4 {
+				break
+			}
+		} else {
+			last, same = c, 0
+		}
+		time.Sleep(time.Millisecond)
+	}
+	if last < 0 {
+		last = 0
+	}
+	atomic.StoreInt32(&servingBase, int32(last))
+}
+
+func clearIdle() { atomic.StoreInt32(&servingBase, 0) }
 
 // rawClient is the scripted peer: it writes JSON lines and reads what the server sends.
 type rawClient struct {
